@@ -37,6 +37,11 @@ def gen_case(rng, tier):
         prof["w_op"] = max(prof["w_op"], 2)
     variant = rng.choices(["A", "B", "C", "D"], [55, 20, 17, 8])[0]
     prof["select"] = variant in "AB" and rng.random() < 0.12  # an alias that is one of two buffers (arith.select)
+    handover = variant in "AB" and rng.random() < 0.2
+    prof["rotation"] = 0.5 if handover else 0  # ping-pong buffers rotated through the iter_args of a loop
+    prof["pick"] = 0.5 if handover else 0  # a conditional hands one of two local buffers on as its result
+    if handover:
+        prof["w_for"], prof["w_if"], prof["max_depth"] = max(prof["w_for"], 2), max(prof["w_if"], 1), max(prof["max_depth"], 1)
     if variant in "CD":
         # static allocation: buffers allocated late / freed early so that the allocator hands the same address out twice
         prof.update(streams=False, multiblock=False, late_allocs=True, n_allocs=rng.choice([3, 4, 5]), p_dealloc=rng.choice([0.0, 0.0, 0.4]))
